@@ -247,6 +247,33 @@ func fillColor(r *rand.Rand, m *image.NRGBA, class string) {
 				}
 			}
 		}
+	case class == "stripflat":
+		// (not in Classes) a textured strip on the left made of four bands with unrelated statistics (several
+		// entropy clusters survive) and a flat area to its right that is coded as long copies, so most of
+		// the flat area's entropy tiles hold no symbol at all.
+		sw := max(1, w/5)
+		order := r.Perm(4)
+		flat := color.NRGBA{uint8(r.Intn(256)), uint8(r.Intn(256)), uint8(r.Intn(256)), 255}
+		for y := 0; y < h; y++ {
+			band := order[min(3, y*4/max(1, h))]
+			for x := 0; x < w; x++ {
+				if x >= sw {
+					set(x, y, flat)
+					continue
+				}
+				v := uint8(r.Intn(256))
+				switch band {
+				case 0:
+					set(x, y, color.NRGBA{v, uint8(r.Intn(256)), uint8(r.Intn(256)), 255})
+				case 1:
+					set(x, y, color.NRGBA{v & 0x0f, 128 + (v & 3), 7, 255})
+				case 2:
+					set(x, y, color.NRGBA{200, v, v ^ 0x55, 255})
+				default:
+					set(x, y, color.NRGBA{v & 0xc0, v & 0x3f, uint8(r.Intn(256)) & 0xf0, 255})
+				}
+			}
+		}
 	case class == "multiband":
 		// (not in Classes; used by targeted families) several flat horizontal bands of different
 		// colours between noise: many near-identical entropy tiles per band, so histogram clusters
